@@ -42,7 +42,8 @@ PUNCT = ["(", ")", "[", "]", "{", "}", "`", "\\", "\\\\", ",", ";", ":", "::", "
 ATOMS = ["0", "1", "42", "3.5", "1e5", "1e-5", "2.", "0x1F", "0b101", "0o17", "36rZZ", "64rAb+/", "7q", "2i", "1.5j", "3f", "99r1",
          "1r1", "0r", "1e", "x", "y", "f", "foo", "a'", "b?", "len", "print", "V", "B", "F", "R", "é", "λ", "\"abc\"", "'x'",
          "\"a\\nb\"", "\"\\u{41}\"", "\"\\x41\"", "F\"{x}\"", "F\"{x #x}\"", "F\"{{}}\"", "F\"{x:5}\"", "B\"ab\"", "R\"a\\b\"",
-         "\"\\", "\"\\u", "\"\\u{", "\"\\x", "\"\\x4", "F\"{", "F\"{x", "F\"}", "F\"{}\"", "F\"{#x}\"", "F\"{x #}\"", "#(", "#( ( )", "# c\n"]
+         "\"\\", "\"\\u", "\"\\u{", "\"\\x", "\"\\x4", "F\"{", "F\"{x", "F\"}", "F\"{}\"", "F\"{#x}\"", "F\"{x #}\"", "#(", "#( ( )", "# c\n",
+         "1\u00b2", "7\u0663", "3\u00bd", "2\u2461", "\u0663", "\u00b2", "x\u00b2", "1\u0967", "0x\u0663", "12r\u0661", "1\u00b2.5", "\uff11\uff12", "5\u2082"]
 
 
 def load_corpus():
@@ -137,12 +138,13 @@ def mutate(r, corpus):
         return s[:r.randrange(0, len(s) + 1)] + t[r.randrange(0, len(t) + 1):][:2000]
     else:            # replace a char by a random one
         i = r.randrange(len(s))
-        return s[:i] + r.choice(["\\", "\"", "'", "{", "}", "(", ")", "#", "\u00e9", "0", "e", "r", ".", "\x00", "\u2028", "🐉"]) + s[i + 1:]
+        return s[:i] + r.choice(["\\", "\"", "'", "{", "}", "(", ")", "#", "\u00e9", "0", "e", "r", ".", "\x00", "\u2028", "🐉",
+                                 "\u00b2", "\u0663", "\u00bd", "\u2461", "\uff11", "\u2082", "\u0967"]) + s[i + 1:]
     return "".join(words)
 
 
 def pathological(r):
-    k = r.randrange(30)
+    k = r.randrange(32)
     n = r.choice([1, 2, 10, 100, 1000, 20000])
     d = r.choice([1, 5, 50, 150])
     if k == 0:
@@ -207,6 +209,11 @@ def pathological(r):
         b = r.randint(2, 36)
         digs = "0123456789abcdefghijklmnopqrstuvwxyz"[:b]
         return "%dr%s" % (b, "".join(r.choice(digs) for _ in range(r.choice([1, 12, 13, 14, 15, 16, 17, 20, 33, 64, 65, 70, 200]))))
+    if k in (30, 31):
+        # characters that are numeric / alphabetic for Unicode but not ASCII digits, glued to number tokens
+        odd = r.choice(["\u00b2", "\u0663", "\u00bd", "\u2461", "\uff11", "\u2082", "\u0967", "\u216b", "\u3007"])
+        head = r.choice(["1", "42", "0x1f", "36rz", "7", "1.5", "2e3", "0b1", "9q", "3i"])
+        return r.choice([head + odd, head + odd + "1", odd + head, head + odd + " + 1", "[" + head + odd + "]", head + "r" + odd])
     if k == 29:
         return r.choice(["0x", "0b", "0o", "0X"]) + "".join(r.choice("01") for _ in range(r.choice([1, 31, 32, 63, 64, 65, 128, 129, 1000])))
     return "try " * d + "1" + " catch x -> 2" * r.randint(0, d)
